@@ -6,6 +6,7 @@ cd "$(dirname "$(readlink -f "$0")")"
 for d in seeded/*/; do
   id=$(basename $d)
   if [ $# -gt 0 ]; then m=0; for p in "$@"; do case $id in $p*) m=1;; esac; done; [ $m = 1 ] || continue; fi
+  if grep -q '"stale"' $d/meta.json; then echo "STALE $id (patch no longer applies, see meta.json)"; continue; fi
   checks=$(python3 -c "
 import json,re,sys
 d=json.load(open('$d/meta.json'))
